@@ -406,7 +406,7 @@ class LP_Solver:
         up_bound_st = (self.model.num_students * len(self.model.rank_lists))**2 * student_multiplier
         up_bound_lec = (self.model.num_lecturers * self.model.num_students)**2 * lecturer_multiplier
         obj = LpVariable(
-                "obj_mincost", 
+                "obj_minsqcost", 
                 lowBound = 0, 
                 upBound = up_bound_st + up_bound_lec,
                 cat = "Integer")
